@@ -8,7 +8,8 @@ after the commit of its CAS) is `Act.crashIn`; both only drop the remembered sel
 process left behind is therefore "some ring content + some tokens file", and the restart theorems
 below quantify over ALL ring contents and files (= every write boundary of every scenario, not a sample).
 The schedule theorems of C08 (`PC08.state_edges`, `heartbeat_monotone`, `registered_once`) hold for schedules
-containing crashes and restarts, so the registration time survives every crash.
+containing CRASHES and restarts (not store faults: they assume an accepting store, see
+`PC08.rejected_commit_breaks_table_witness`), so the registration time survives every crash.
 -/
 namespace PC09
 open Ring C08 C09 PfC08 PfC09
@@ -56,10 +57,13 @@ theorem restart_keeps_entry (c : Cfg) (file : File) (d : Desc) (e : Inst) (shuf 
     ∀ d' b, r.out = .write d' → Desc.get? d' c.id = some b → b.state = e.state ∧ b.tokens = e.tokens ∧ b.regTs = e.regTs :=
   PfC09.init_resumes_other hk hf he hj hl l
 
-/-- Whatever the dead process left in the ring (no entry, or an entry in ANY state the consul ring can hold) and
-in the tokens file, the restart procedure `initRing; join timer; observe; changeState(ACTIVE)` ends with the
-lifecycler ACTIVE and its entry published ACTIVE. (Token count / non-collision of the join: `PC08.activation_tokens`
-with the ring as found; registration time: `PC08.registered_once`, whose schedules include crashes.) -/
+/-- Whatever the dead process left in the ring (no entry, or an entry in ANY state the consul ring can hold) and in the
+tokens file — the quantifier is over the START state — the UNDISTURBED restart procedure `restartLC` = `initRing; join
+timer; verifyTokens; changeState(ACTIVE)` (one fixed list: accepting store, nobody else writing in between, all at one
+clock reading; the final `changeState(ACTIVE)` is refused when the lifecycler already is ACTIVE) ends with the lifecycler
+ACTIVE and its entry published ACTIVE. Schedules with interleaved writers and heartbeats: the loop theorems of C08
+(`PC08.loop_entry_evolution`, `running_stays_registered`); token count / non-collision: `restart_join_full_tokens`,
+`restart_died_leaving_tokens`; registration time: `PC08.registered_once`, whose schedules include crashes. -/
 theorem restart_reaches_active (c : Cfg) (hk : c.kind = .LC) (store : Option Desc) (file : File) (clock now : Int)
     (shuf : List Nat) (gen : Gen) (hclk : clock ≤ now)
     (hts : ∀ i, Desc.get? (store.getD []) c.id = some i → i.ts ≤ clock)
@@ -68,10 +72,10 @@ theorem restart_reaches_active (c : Cfg) (hk : c.kind = .LC) (store : Option Des
     s.l.state = .ACTIVE ∧ ∃ b, Desc.get? (s.store.getD []) c.id = some b ∧ b.state = .ACTIVE :=
   PfC09.restart_reaches_active hk hclk hts hst
 
-/-- BasicLifecycler: whatever ring content and tokens file the dead process left, `starting()` (register, observe,
-OnRingInstanceTokens) followed by the owner's `ChangeState(ACTIVE)` ends with the instance registered ACTIVE, the
-remembered entry equal to the published one, and the registration time of the old entry (if there was one) kept.
-(Tokens: `PC08.basic_activation_tokens_partial`.) -/
+/-- BasicLifecycler, undisturbed restart `restartBLC` = register, verifyTokens, OnRingInstanceTokens, the OWNER's
+`ChangeState(ACTIVE)`: that the instance ends ACTIVE is by the last step; the content is that the remembered entry equals
+the published one and that the registration time of the old entry (if there was one) is kept throughout.
+(Tokens: `PC08.basic_activation_tokens`.) -/
 theorem basic_restart_reaches_active (c : Cfg) (hk : c.kind = .BLC) (store : Option Desc) (file : File) (clock now : Int) (gen : Gen) :
     let s := Sys.run c { store := store, l := {}, file := file, clock := clock } (restartBLC now gen)
     ∃ b, s.l.cur = some b ∧ b.state = .ACTIVE ∧ Desc.get? (s.store.getD []) c.id = some b ∧
@@ -86,16 +90,32 @@ example : -- non-vacuity: died JOINING with 1 of 2 tokens; restart keeps token 4
       [("a", .ACTIVE, [4, 7], 2), ("b", .ACTIVE, [9], 0)] := by
   decide
 
-/-- no collision after restart: the tokens a (re)joining lifecycler adds are in no instance's list in the ring it
-joined from (restated from `PC08.activation_tokens`; the generator contract is the hypothesis `GenOK`). -/
-theorem no_collision_after_restart (c : Cfg) (l : Local) (file : File) (din : Option Desc) (now : Int) (gen : Gen)
-    (hk : c.kind = .LC) (hs : l.started = true) (hp : l.state = .PENDING) (hg : GenOK gen)
-    (hnd : (tokensOf (din.getD []) c.id).Nodup) (hle : (tokensOf (din.getD []) c.id).length ≤ c.numTokens) :
-    ∃ d' b, (step c l file din .joinTimer now gen .none).out = .write d' ∧ Desc.get? d' c.id = some b ∧
-      b.tokens.length = c.numTokens ∧
-      ∀ t ∈ b.tokens, t ∈ tokensOf (din.getD []) c.id ∨ ∀ i ∈ din.getD [], t ∉ i.tokens := by
-  obtain ⟨d', b, h1, h2, _, _, _, h6, _, _, h9⟩ := PfC08.lc_join_tokens (file := file) (now := now) (fault := .none) hk hs hp hg (by decide) hnd hle
-  exact ⟨d', b, h1, h2, h6, h9⟩
+/-- Restart over an entry left PENDING or JOINING with a well-formed token list (strictly sorted, at most `numTokens` —
+what the lifecycler itself ever publishes): after `initRing` and the join timer the entry carries the OLD registration
+time and exactly `numTokens` strictly sorted tokens, the old ones among them, every new one in NO instance's list
+("keeps its tokens … full token count without colliding"; the hypotheses of `PC08.activation_tokens` are discharged here
+from the entry). For an entry left LEAVING: `restart_died_leaving_tokens`; left ACTIVE: `restart_keeps_entry`. -/
+theorem restart_join_full_tokens (c : Cfg) (file : File) (d : Desc) (e : Inst) (shuf : List Nat) (now : Int) (gen : Gen) (l : Local)
+    (hk : c.kind = .LC) (he : Desc.get? d c.id = some e) (hst : e.state = .JOINING ∨ e.state = .PENDING)
+    (hg : GenOK gen) (hsorted : e.tokens.Pairwise (· < ·)) (hle : e.tokens.length ≤ c.numTokens) :
+    let r1 := step c l file (some d) (.init shuf) now gen .none
+    let st1 := commit (some d) r1 .none
+    let r2 := step c r1.l r1.file st1 .joinTimer now gen .none
+    ∃ d' b, r2.out = .write d' ∧ Desc.get? d' c.id = some b ∧ b.regTs = e.regTs ∧
+      b.tokens.length = c.numTokens ∧ b.tokens.Pairwise (· < ·) ∧ (∀ t ∈ e.tokens, t ∈ b.tokens) ∧ r2.l.tokens = b.tokens ∧
+      (∀ t ∈ b.tokens, t ∈ e.tokens ∨ ∀ i ∈ st1.getD [], t ∉ i.tokens) :=
+  PfC09.restart_join_tokens l hk he hst hg hsorted hle
+
+/-- Restart from the tokens file with no ring entry (the dead process had unregistered, or the ring was lost): registered
+now; the file's tokens are published as they are, ACTIVE at once iff the file holds at least `numTokens` tokens. -/
+theorem restart_from_tokens_file (c : Cfg) (l : Local) (file : File) (din : Option Desc) (shuf : List Nat) (now : Int) (gen : Gen)
+    (hk : c.kind = .LC) (habs : Desc.get? (din.getD []) c.id = none) :
+    let r := step c l file din (.init shuf) now gen .none
+    let ft := if c.hasFile then file.load.getD [] else []
+    ∃ b, r.out = .write (put (din.getD []) b) ∧ b.id = c.id ∧ b.regTs = now ∧ b.ts = now ∧ b.tokens = ft ∧
+      b.state = (if 0 < ft.length ∧ c.numTokens ≤ ft.length then .ACTIVE else .PENDING) ∧
+      r.l.tokens = ft ∧ r.l.state = b.state ∧ r.l.regTs = now :=
+  PfC08.lc_first_registration hk (by decide) habs
 
 /-! ### the store loses the ring or rejects calls -/
 
@@ -115,7 +135,66 @@ theorem basic_reregisters_after_wipe (c : Cfg) (l : Local) (file : File) (din : 
       b.regTs = now ∧ b.ts = now ∧ r.l.cur = some b :=
   PfC09.blc_reregisters hk hs habs
 
-/-- while calls are rejected, heartbeats change neither the store nor the remembered state, tokens or file. -/
+/-- The same fresh re-registration happens through every other path that ends in `updateConsul`: an accepted
+`changeState` and a read-only toggle that find the entry missing. -/
+theorem state_change_reregisters_fresh (c : Cfg) (l : Local) (file : File) (din : Option Desc) (ev : Event) (now : Int) (gen : Gen)
+    (hk : c.kind = .LC) (hs : l.started = true) (habs : Desc.get? (din.getD []) c.id = none)
+    (hev : (∃ s, ev = .changeState s ∧ allowed l.state s = true) ∨ (∃ r, ev = .changeRO r ∧ l.ro ≠ r)) :
+    ∃ b, (step c l file din ev now gen .none).out = .write (put (din.getD []) b) ∧ b.id = c.id ∧ b.tokens = l.tokens ∧
+      b.regTs = now ∧ b.ts = now ∧ (step c l file din ev now gen .none).l.regTs = now :=
+  PfC09.lc_update_reregisters hk hs habs hev
+
+/-- BasicLifecycler: EVERY handler that goes through `updateInstance` — heartbeat, `verifyTokens`, ChangeState,
+ChangeReadOnlyState, the stopping delegate — and finds the entry missing re-inserts it registered NOW. -/
+theorem basic_reregisters_fresh_any_handler (c : Cfg) (l : Local) (file : File) (din : Option Desc) (ev : Event) (now : Int)
+    (gen : Gen) (d' : Desc) (b : Inst) (hk : c.kind = .BLC) (hs : l.started = true)
+    (habs : Desc.get? (din.getD []) c.id = none)
+    (hev : ev = .heartbeat ∨ ev = .verify ∨ (∃ s, ev = .changeState s) ∨ (∃ r, ev = .changeRO r) ∨ ev = .stopDelegate)
+    (h : (step c l file din ev now gen .none).out = .write d') (hb : Desc.get? d' c.id = some b) : b.regTs = now :=
+  PfC09.blc_any_reregisters_fresh hk hs habs hev h hb
+
+/-
+FINDING (full Lifecycler): the clause "re-registers itself with its remembered state and tokens …, with a fresh
+registration time" holds on the `updateConsul` paths above ONLY. If the observe timer, the join timer or a
+`ClaimTokensFor` is the first handler to write after the ring (or the own entry) was lost, the entry is re-inserted by
+`AddIngester(…, i.getRegisteredAt(), …)` with the OLD registration time — `verifyTokens` moreover publishes a freshly
+generated token set instead of the remembered tokens — and the next heartbeat finds the entry and refreshes nothing.
+Three witnesses (the same happens in the Go code: `wipeobs/*`, `wipeother/*` cases of the correspondence check):
+-/
+
+/-- observe timer first after a wipe: remembered tokens [3,8] are replaced by generated [1,2], registration time stays 5. -/
+theorem reregister_by_verify_witness :
+    let c : Cfg := { id := "a", numTokens := 2, observe := true }
+    let l : Local := { started := true, state := .JOINING, tokens := [3, 8], regTs := 5 }
+    (step c l .absent none .verify 9 (fun _ _ => [1, 2]) .none).out =
+      .write [{ id := "a", ts := 9, state := .JOINING, tokens := [1, 2], regTs := 5 }] := by
+  decide
+
+/-- join timer first after a wipe between `initRing` and the join: registration time stays 5 (heartbeat would publish 9). -/
+theorem reregister_by_join_witness :
+    let c : Cfg := { id := "a", numTokens := 1 }
+    let l : Local := { started := true, state := .PENDING, regTs := 5 }
+    (step c l .absent none .joinTimer 9 (fun _ _ => [4]) .none).out =
+      .write [{ id := "a", ts := 9, state := .ACTIVE, tokens := [4], regTs := 5 }] ∧
+    (step c l .absent none .heartbeat 9 (fun _ _ => [4]) .none).out =
+      .write [{ id := "a", ts := 9, state := .PENDING, regTs := 9 }] := by
+  decide
+
+/-- `ClaimTokensFor` first after the own entry was removed: a zero-valued ACTIVE entry with registration time 0; the
+following heartbeat restores address/zone and writes the OLD registration time 5. -/
+theorem reregister_by_claim_witness :
+    let c : Cfg := { id := "a", addr := "h:1", numTokens := 1 }
+    let l : Local := { started := true, state := .ACTIVE, tokens := [3], regTs := 5 }
+    let d : Desc := [{ id := "old", state := .LEAVING, tokens := [7] }]
+    let r := step c l .absent (some d) (.claim "old") 9 (fun _ _ => []) .none
+    r.out = .write [{ id := "a", ts := 9, state := .ACTIVE, tokens := [7], regTs := 0 }, { id := "old", state := .LEAVING }] ∧
+    (step c r.l r.file (commit (some d) r .none) .heartbeat 10 (fun _ _ => []) .none).out =
+      .write [{ id := "a", addr := "h:1", ts := 10, state := .ACTIVE, tokens := [7], regTs := 5 }, { id := "old", state := .LEAVING }] := by
+  decide
+
+/-- while calls are rejected, heartbeats change neither the store nor the remembered state, tokens or file. (Registration
+time: a heartbeat whose COMMIT is rejected after it found the entry missing has already set the remembered registration
+time to `now`; the next accepted heartbeat sets it again, `reregisters_after_wipe`.) -/
 theorem heartbeat_under_faults (c : Cfg) (l : Local) (file : File) (din : Option Desc) (now : Int) (gen : Gen) :
     (let r := step c l file din .heartbeat now gen .failBefore
      r.l = l ∧ r.file = file ∧ commit din r .failBefore = din) ∧
@@ -175,11 +254,13 @@ example : -- non-vacuity (the former witness input): nothing is forgotten
   decide
 
 /-- Start-up under a read outage. With a token generator that has a can-join check `autoJoin` first runs
-`waitBeforeJoining`; if the first `k` reads fail (or find no ring, or `CanJoin` refuses) and the next one works — `k`
-below the can-join timeout — it makes exactly `k + 1` attempts and then the join timer does exactly what it does
-without any outage: the entry is published in the target state with `numTokens` strictly sorted tokens, which are also
-the remembered ones. (Without a can-join check the store is never read. Together with `restart_reaches_active` /
-`PC08.activation_tokens`: any finite number of failed reads followed by working reads ends ACTIVE with NumTokens tokens.) -/
+`waitBeforeJoining`: if the first `k` reads fail (or find no ring, or `CanJoin` refuses) and the next one works — `k`
+below the can-join timeout — `waitAttempts` makes exactly `k + 1` attempts; without a can-join check the store is never
+read. The model gives the outage NO other effect BY CONSTRUCTION (`joinTimerWithReads` runs the ordinary join-timer
+handler afterwards, at the same `now`, on the same store — the error is swallowed in the code; that meanwhile real
+seconds pass and no heartbeat is served is not modelled), so the second half is `PC08.activation_tokens` for that
+handler: target state, `numTokens` strictly sorted tokens, equal to the remembered ones. The tie is the real-time
+`C09.startup` stream. -/
 theorem join_survives_read_outage (c : Cfg) (l : Local) (file : File) (store : Option Desc) (now : Int) (gen : Gen)
     (canJoin : Bool) (budget k : Nat) (reads : Nat → Read)
     (hk : c.kind = .LC) (hs : l.started = true) (hp : l.state = .PENDING) (hg : GenOK gen)
@@ -187,13 +268,12 @@ theorem join_survives_read_outage (c : Cfg) (l : Local) (file : File) (store : O
     (hkb : k < budget) (hfail : ∀ j, j < k → reads j ≠ .ok) (hok : reads k = .ok) :
     let r := joinTimerWithReads c l file store now gen canJoin budget reads
     r.2 = (if canJoin then k + 1 else 0) ∧
-    r.1 = step c l file store .joinTimer now gen .none ∧
     ∃ d' b, r.1.out = .write d' ∧ Desc.get? d' c.id = some b ∧
       b.state = (if c.observe then .JOINING else .ACTIVE) ∧ b.tokens.length = c.numTokens ∧
       b.tokens.Pairwise (· < ·) ∧ r.1.l.tokens = b.tokens := by
   intro r
   have hw := PfC09.waitAttempts_outage reads k budget 0 hkb (by simpa using hfail) (by simpa using hok)
-  refine ⟨?_, rfl, ?_⟩
+  refine ⟨?_, ?_⟩
   · cases canJoin <;> simp [r, joinTimerWithReads, hs, hp, hw]
   · obtain ⟨d', b, h1, h2, h3, _, h5, h6, h7, _, _⟩ :=
       PfC08.lc_join_tokens (file := file) (now := now) (fault := .none) hk hs hp hg (by decide) hnd hle
@@ -209,14 +289,15 @@ example : -- non-vacuity: two failed reads, then the ring is readable: 3 attempt
 
 /-! ### tokens file -/
 
-/-- `StoreToFile` interrupted after any of its file-system operations (or in the middle of the write): the
-tokens file is the complete old or the complete new list; run to the end it is the new list and the
-temporary file is gone. `LoadTokensFromFile` only ever reads the tokens file itself. -/
+/-- `StoreToFile` (create temporary file, write, rename) interrupted by a PROCESS crash after any of its file-system
+operations, or in the middle of the write: the tokens file is the complete old or the complete new list; run to the end
+it is the new list and the temporary file is gone. (That `LoadTokensFromFile` reads only the tokens file itself, never
+the temporary one, is how `FS.load` is defined — a reading of tokens.go, not a theorem. A failing `f.Close()` and a
+machine crash without fsync before the rename are outside this model.) -/
 theorem tokens_file_atomic (fs : FS) (t : List Nat) (k : Nat) (midWrite : Bool) :
     ((crashedStore fs t k midWrite).main = fs.main ∨ (crashedStore fs t k midWrite).main = .tokens t) ∧
-    (3 ≤ k → (crashedStore fs t k false).main = .tokens t ∧ (crashedStore fs t k false).tmp = .absent) ∧
-    (crashedStore fs t k midWrite).load = (crashedStore fs t k midWrite).main.load :=
-  ⟨PfC09.file_atomic fs t k midWrite, PfC09.file_complete fs t k, rfl⟩
+    (3 ≤ k → (crashedStore fs t k false).main = .tokens t ∧ (crashedStore fs t k false).tmp = .absent) :=
+  ⟨PfC09.file_atomic fs t k midWrite, PfC09.file_complete fs t k⟩
 
 /-- ... and when the write itself FAILS after a partial write (disk full, quota) `StoreToFile` returns the error
 without renaming: the tokens file still holds the complete old list (the partial temporary file is left behind);
